@@ -191,13 +191,13 @@ Available=False/PreflightError. -/
 theorem listed_twice_writes_nothing (cfg : Cfg) (rm : Pko.Model.ObjectSet.Remotes)
     (s : Pko.Model.ObjectSet.Sys) (mem : Pko.Model.ObjectSet.OSet)
     (h : Pko.Model.ObjectSet.hasDuplicates mem.phases = true) :
-    (Pko.Model.ObjectSet.activePhases cfg rm s mem).1.w.events = s.w.events ∧
-    (Pko.Model.ObjectSet.activePhases cfg rm s mem).2 ≠ .ok ∧
-    ∃ r, (Pko.Model.ObjectSet.activePhases cfg rm s mem).1.setEvents = s.setEvents ++
+    (Pko.Model.ObjectSet.activePhasesCore cfg rm s mem).1.w.events = s.w.events ∧
+    (Pko.Model.ObjectSet.activePhasesCore cfg rm s mem).2 ≠ .ok ∧
+    ∃ r, (Pko.Model.ObjectSet.activePhasesCore cfg rm s mem).1.setEvents = s.setEvents ++
       [.statusUpdate mem.name r mem.revision
         (Pko.Model.Status.setCond mem.conds (Pko.Model.ObjectSet.availableCond mem.gen false "PreflightError" ""))
         mem.controllerOf mem.remotePhases] := by
-  simp only [Pko.Model.ObjectSet.activePhases, h, if_true, Pko.Model.ObjectSet.statusFromError]
+  simp only [Pko.Model.ObjectSet.activePhasesCore, h, if_true, Pko.Model.ObjectSet.statusFromError]
   have key : ∀ m : Pko.Model.ObjectSet.OSet,
       (Pko.Model.ObjectSet.afterStatus (s.updateStatus m) .requeue).1.w.events = s.w.events ∧
       (Pko.Model.ObjectSet.afterStatus (s.updateStatus m) .requeue).2 ≠ .ok ∧
